@@ -1,0 +1,56 @@
+//go:build verif
+// +build verif
+
+// Contracts for the deductive verifier in /verif (govc). Comment-only: no executable code.
+package transport
+
+//@ const IMP = "Impersonate-"
+//@ const theUser = ctxUser(reqCtxOf(req))
+//@ const wraps = theUser != nil
+
+//@ func headerKeyEscape props C02
+//@   trusted "percent-escaping of an extra key (byte loop over a strings.Builder); only its being a function of the key matters"
+//@   pure-def escapeKey(key)
+
+//@ const OH = param("req").Header
+//@ const U = ctxUser(reqCtxOf(param("req")))
+//@ const groupsDone = (len(userGroups(U)) > 0 ==> ("Impersonate-Group" in req.Header) && req.Header["Impersonate-Group"] == userGroups(U)) && (len(userGroups(U)) == 0 ==> !("Impersonate-Group" in req.Header))
+
+//@ func (*dynamicImpersonatingRoundTripper).WrapRequest props C02
+//@   requires [clean_input] req != nil && req.Header != nil && forall k string :: {k in req.Header} (k in req.Header) ==> !hasPrefix(k, "Impersonate-")
+//@   modifies nothing
+//@   ensures [no_user_untouched] result1 == nil && (!wraps ==> result == req)
+//@   ensures [new_request] wraps ==> result != nil && fresh(result) && result.Header != req.Header
+//@   ensures [input_untouched] mapdom(req.Header) == old(mapdom(req.Header)) && mapval(req.Header) == old(mapval(req.Header))
+//@   ensures [user] wraps ==> ("Impersonate-User" in result.Header) && result.Header["Impersonate-User"] == seq(userName(theUser))
+//@   ensures [groups] wraps ==> (len(userGroups(theUser)) > 0 ==> ("Impersonate-Group" in result.Header) && result.Header["Impersonate-Group"] == userGroups(theUser)) && (len(userGroups(theUser)) == 0 ==> !("Impersonate-Group" in result.Header))
+//@   ensures [family_generated] wraps ==> forall k string :: {k in result.Header} (k in result.Header) && hasPrefix(k, "Impersonate-") ==> k == "Impersonate-User" || k == "Impersonate-Group" || hasPrefix(k, "Impersonate-Extra-")
+//@   ensures [others_kept] wraps ==> forall k string :: {k in result.Header} !hasPrefix(k, "Impersonate-") ==> ((k in result.Header) == old(k in req.Header)) && result.Header[k] === old(req.Header[k])
+//@   loop 0: invariant [frame_in] mapdom(OH) == old(mapdom(OH)) && mapval(OH) == old(mapval(OH))
+//@   loop 0: invariant [other_maps] forall m2 map[string][]string :: {mapdom(m2)} {mapval(m2)} m2 != req.Header ==> mapdom(m2) == old(mapdom(m2)) && mapval(m2) == old(mapval(m2))
+//@   loop 0: invariant [newreq] U != nil && req != nil && fresh(req) && req.Header != nil && req.Header != OH && !old(allocated(req.Header))
+//@   loop 0: invariant [user] ("Impersonate-User" in req.Header) && req.Header["Impersonate-User"] == seq(userName(U))
+//@   loop 0: invariant [others_kept] forall k string :: {k in req.Header} {req.Header[k]} !hasPrefix(k, "Impersonate-") ==> ((k in req.Header) == old(k in OH)) && req.Header[k] === old(OH[k])
+//@   loop 0: invariant [family] forall k string :: {k in req.Header} (k in req.Header) && hasPrefix(k, "Impersonate-") ==> k == "Impersonate-User" || k == "Impersonate-Group" || hasPrefix(k, "Impersonate-Extra-")
+//@   loop 1: invariant [frame_in] mapdom(OH) == old(mapdom(OH)) && mapval(OH) == old(mapval(OH))
+//@   loop 1: invariant [other_maps] forall m2 map[string][]string :: {mapdom(m2)} {mapval(m2)} m2 != req.Header ==> mapdom(m2) == old(mapdom(m2)) && mapval(m2) == old(mapval(m2))
+//@   loop 1: invariant [newreq] U != nil && req != nil && fresh(req) && req.Header != nil && req.Header != OH && !old(allocated(req.Header))
+//@   loop 1: invariant [user] ("Impersonate-User" in req.Header) && req.Header["Impersonate-User"] == seq(userName(U))
+//@   loop 1: invariant [others_kept] forall k string :: {k in req.Header} {req.Header[k]} !hasPrefix(k, "Impersonate-") ==> ((k in req.Header) == old(k in OH)) && req.Header[k] === old(OH[k])
+//@   loop 1: invariant [family] forall k string :: {k in req.Header} (k in req.Header) && hasPrefix(k, "Impersonate-") ==> k == "Impersonate-User" || k == "Impersonate-Group" || hasPrefix(k, "Impersonate-Extra-")
+//@   loop 2: invariant [frame_in] mapdom(OH) == old(mapdom(OH)) && mapval(OH) == old(mapval(OH))
+//@   loop 2: invariant [other_maps] forall m2 map[string][]string :: {mapdom(m2)} {mapval(m2)} m2 != req.Header ==> mapdom(m2) == old(mapdom(m2)) && mapval(m2) == old(mapval(m2))
+//@   loop 2: invariant [newreq] U != nil && req != nil && fresh(req) && req.Header != nil && req.Header != OH && !old(allocated(req.Header))
+//@   loop 2: invariant [user] ("Impersonate-User" in req.Header) && req.Header["Impersonate-User"] == seq(userName(U))
+//@   loop 2: invariant [others_kept] forall k string :: {k in req.Header} {req.Header[k]} !hasPrefix(k, "Impersonate-") ==> ((k in req.Header) == old(k in OH)) && req.Header[k] === old(OH[k])
+//@   loop 2: invariant [family] forall k string :: {k in req.Header} (k in req.Header) && hasPrefix(k, "Impersonate-") ==> k == "Impersonate-User" || k == "Impersonate-Group" || hasPrefix(k, "Impersonate-Extra-")
+//@   loop 0: invariant [groups_prefix] 0 <= idx && idx <= len(userGroups(U)) && (idx == 0 ==> !("Impersonate-Group" in req.Header)) && (idx > 0 ==> ("Impersonate-Group" in req.Header) && req.Header["Impersonate-Group"] == take(userGroups(U), idx))
+//@   loop 1: invariant [groups_done] groupsDone
+//@   loop 2: invariant [groups_done] groupsDone
+
+//@ func groupsToString props C02
+//@   trusted "log formatting only (it sorts its argument's backing array in place, which the slice-as-value model does not see)"
+//@   modifies nothing
+//@ func extraToString props C02
+//@   trusted "log formatting only"
+//@   modifies nothing
